@@ -251,6 +251,49 @@ func c12Run(w *W) {
 			}
 		}
 	}
+	// repetition: one element repeated n = 1 … 24 times against subjects of length n-1, n, n+1 (and lists of n patterns)
+	for n := 1; n <= 24; n++ {
+		if !w.Mine() {
+			continue
+		}
+		w.Announce(fmt.Sprintf("repetition %d", n))
+		for _, u := range []string{"a", "?", "[ab]", "\\*", "[!a]", "[[:alpha:]]", "é", "[a-c]", "\\a"} {
+			ps := strings.Repeat(u, n)
+			w.Count("states", 1)
+			for _, c := range []string{"a", "b", "*", "é"} {
+				for _, m := range []int{n - 1, n, n + 1} {
+					if m < 0 {
+						continue
+					}
+					for _, mode := range c12Modes {
+						c12One(w, []string{ps}, mode, strings.Repeat(c, m))
+						c12One(w, []string{ps + "*"}, mode, strings.Repeat(c, m))
+					}
+				}
+			}
+		}
+		if n <= 5 {
+			for _, u := range []string{"*", "a*", "*a", "?*"} {
+				ps := strings.Repeat(u, n)
+				for _, sub := range []string{"", "a", "aa", "aaaaaa", "ab", "ba", "aabaa"} {
+					for _, mode := range c12Modes {
+						c12One(w, []string{ps}, mode, sub)
+					}
+				}
+			}
+		}
+		// n patterns in one list: only the last one matches
+		var list []string
+		for i := 0; i < n; i++ {
+			list = append(list, "x"+strings.Repeat("y", i))
+		}
+		list = append(list, "a?")
+		for _, sub := range []string{"ab", "a", "xy", "abc", "x" + strings.Repeat("y", n-1)} {
+			for _, mode := range c12Modes {
+				c12One(w, list, mode, sub)
+			}
+		}
+	}
 	// pattern lists: "several patterns match exactly when one of them does"
 	var small []string
 	genRunes([]rune("ab*?[]\\"), 2, func(p []rune) { small = append(small, string(p)) })
